@@ -1,5 +1,6 @@
 """C08 - the conformation average is the mean over the conformations that contain a group."""
 import io
+import math
 
 from .. import common, observe, pdbgen
 from ..dets_common import partner, enc_group, hx
@@ -138,12 +139,37 @@ def model_variant(rnd, lines, identical=False):
     return out
 
 
+def ss_open_closed(rnd, closed_first):
+    """the Cys 42 - Cys 58 fragment of 3SGB with two alternate positions of SG 58: the deposited one (bridge closed) and one
+    moved 2.5-3.5 A further from SG 42 (bridge open); `closed_first` decides which alternate is written as A"""
+    lines = pdbgen.ss_fragment()
+    sg = {int(l[22:26]): pdbgen.coords(l) for l in lines if pdbgen.is_atom(l) and l[17:20] == "CYS" and l[12:16].strip() == "SG"}
+    a, b = sg[42], sg[58]
+    d = [b[i] - a[i] for i in range(3)]
+    n = math.sqrt(sum(c * c for c in d))
+    k = rnd.uniform(2.5, 3.5)
+    moved = [round(b[i] + k * d[i] / n, 3) for i in range(3)]
+    out = []
+    for l in lines:
+        if pdbgen.is_atom(l) and l[17:20] == "CYS" and l[12:16].strip() == "SG" and int(l[22:26]) == 58:
+            closed = pdbgen.setcols(l, 16, 17, "A" if closed_first else "B")
+            opened = pdbgen.setcols(pdbgen.set_coords(l, *moved), 16, 17, "B" if closed_first else "A")
+            out += [closed, opened] if closed_first else [opened, closed]
+        else:
+            out.append(l)
+    return out
+
+
 def gen_inputs(ctx):
     rnd = ctx.rng
     out = [(n, t, "file") for n, t in pdbgen.test_files(["conf-alt-AB", "conf-alt-AB-mutant", "conf-alt-BC", "conf-model-missing-atoms", "conf-model-mutant"])]
     # a protein-sized structure (buried groups, many determinants) with a few alternate locations
     for n, t in pdbgen.test_files(["3SGB-subset"] if ctx.quick() else ["3SGB", "1HPX"]):
         out.append((n + "-altloc", pdbgen.text(pdbgen.altloc_atoms(rnd, pdbgen.lines_of(t), rnd.randint(1, 3))), "altloc"))
+    # a disulfide bridge that is closed in one conformation and open in the other (alternate positions of one SG): the
+    # cysteines are fixed at 99.99 where bridged and titrate where not; the average is still the mean
+    for order in (0, 1):
+        out.append(("ss-open-closed-%d" % order, pdbgen.text(ss_open_closed(rnd, order)), "altloc"))
     for i in range(17 if ctx.quick() else 150):
         lines = pdbgen.fragment(rnd, nres=rnd.randint(3, 9))
         lines = pdbgen.relabel(lines, chain="A")
